@@ -17,7 +17,6 @@ import (
 	"crypto/sha256"
 	"encoding/base64"
 	"fmt"
-	"math"
 	"regexp"
 	"strconv"
 	"strings"
@@ -640,12 +639,8 @@ func Reader(data any, selectors []any) (any, error) {
 									}
 								case float64:
 									{
-										remainder := math.Mod(value, 1)
-										if remainder == 0 {
-											copy[selector.GetKey()] = fmt.Sprintf("%d", int64(value))
-											continue
-										}
-										copy[selector.GetKey()] = fmt.Sprintf("%f", value)
+										// the shortest decimal text of the number, without an exponent
+										copy[selector.GetKey()] = strconv.FormatFloat(value, 'f', -1, 64)
 									}
 								default:
 									{
